@@ -10,6 +10,14 @@ fn main() {
     if args.len() < 3 {
         usage();
     }
+    if args[1] == "serve" {
+        // manual experiments: start the echo server and print its address
+        let rt = tokio::runtime::Builder::new_multi_thread().enable_all().build().unwrap();
+        let live = vlib::c09::start_echo(&rt, 1 << 20, dropshot::HandlerTaskMode::Detached);
+        println!("{}", live.addr);
+        std::thread::sleep(std::time::Duration::from_secs(args[2].parse().unwrap_or(60)));
+        return;
+    }
     let id = args[1].to_uppercase();
     let tier = match args[2].as_str() {
         "quick" => Tier::Quick,
@@ -50,6 +58,8 @@ fn main() {
         "C04" => vlib::routing::run(&mut ctx, vlib::routing::Mode::C04),
         "C05" => vlib::c05::run(&mut ctx),
         "C06" => vlib::c06::run(&mut ctx),
+        "C09" => vlib::c09::run(&mut ctx),
+        "C10" => vlib::c10::run(&mut ctx),
         "C13" => vlib::c13::run(&mut ctx),
         _ => {
             eprintln!("unknown property {}", id);
